@@ -108,6 +108,8 @@ type c16block struct {
 	avp        base.ACCEPTVoteproof
 	served     map[base.BlockItemType]bool
 	recoded    map[base.BlockItemType]bool // the source serves an equivalent but byte-different file
+	absent     map[base.BlockItemType]bool // the item is not listed in the (re-signed) block map and not served
+	count0     map[base.BlockItemType]bool // the list item is served as an empty list ("count":0 header only), checksum matching
 	alt        bool                        // write the equivalent, byte-different form
 	rebuildSts bool
 	rebuildOps bool
@@ -115,7 +117,7 @@ type c16block struct {
 
 type c16tamper struct {
 	name  string
-	excl  string // tampers of the same non-empty group are not combined
+	excl  string // comma separated groups; tampers sharing a group are not combined
 	apply func(e *c16env, basename string, b *c16block)
 }
 
@@ -137,16 +139,16 @@ func c16alphabet() []c16tamper {
 		{name: "state-replaced", apply: func(e *c16env, bn string, b *c16block) { b.sts[0] = e.stR[bn] }},
 		{name: "state-dropped", apply: func(_ *c16env, _ string, b *c16block) { b.sts = b.sts[:len(b.sts)-1] }},
 		{name: "state-added", apply: func(e *c16env, _ string, b *c16block) { b.sts = append(b.sts, e.stX) }},
-		{name: "states-tree-foreign", excl: "ststree", apply: func(e *c16env, _ string, b *c16block) { b.ststree = e.statesTree(e.stF) }},
-		{name: "states-tree-rebuilt", excl: "ststree", apply: func(_ *c16env, _ string, b *c16block) { b.rebuildSts = true }},
+		{name: "states-tree-foreign", excl: "ststree,served-states_tree", apply: func(e *c16env, _ string, b *c16block) { b.ststree = e.statesTree(e.stF) }},
+		{name: "states-tree-rebuilt", excl: "ststree,served-states_tree", apply: func(_ *c16env, _ string, b *c16block) { b.rebuildSts = true }},
 		{name: "op-replaced", apply: func(e *c16env, _ string, b *c16block) { b.ops[0] = e.opR }},
 		{name: "op-dropped", apply: func(_ *c16env, _ string, b *c16block) { b.ops = b.ops[:len(b.ops)-1] }},
 		{name: "op-added", apply: func(e *c16env, _ string, b *c16block) { b.ops = append(b.ops, e.opX) }},
-		{name: "ops-tree-foreign", excl: "opstree", apply: func(e *c16env, _ string, b *c16block) { b.opstree = e.opsTree(e.opF) }},
-		{name: "ops-tree-rebuilt", excl: "opstree", apply: func(_ *c16env, _ string, b *c16block) { b.rebuildOps = true }},
+		{name: "ops-tree-foreign", excl: "opstree,served-operations_tree", apply: func(e *c16env, _ string, b *c16block) { b.opstree = e.opsTree(e.opF) }},
+		{name: "ops-tree-rebuilt", excl: "opstree,served-operations_tree", apply: func(_ *c16env, _ string, b *c16block) { b.rebuildOps = true }},
 		{name: "proposal-of-other-block", apply: func(e *c16env, _ string, b *c16block) { b.pr = e.prOther }},
-		{name: "manifest-states-root-altered", apply: func(_ *c16env, _ string, b *c16block) { b.mStsRoot = c16hash("altered states root") }},
-		{name: "manifest-ops-root-altered", apply: func(_ *c16env, _ string, b *c16block) { b.mOpsRoot = c16hash("altered ops root") }},
+		{name: "manifest-states-root-altered", excl: "mstsroot", apply: func(_ *c16env, _ string, b *c16block) { b.mStsRoot = c16hash("altered states root") }},
+		{name: "manifest-ops-root-altered", excl: "mopsroot", apply: func(_ *c16env, _ string, b *c16block) { b.mOpsRoot = c16hash("altered ops root") }},
 		{name: "vps-other-height", apply: func(_ *c16env, _ string, b *c16block) { b.vpHeight = c16H + 1 }},
 		{name: "vps-point-mismatch", apply: func(_ *c16env, _ string, b *c16block) { b.avpRound = 1 }},
 		{name: "avp-other-block", excl: "avp", apply: func(_ *c16env, _ string, b *c16block) { b.avpBlock = "other" }},
@@ -162,6 +164,15 @@ func c16alphabet() []c16tamper {
 		recoded(base.BlockItemOperations, "reordered"),
 		recoded(base.BlockItemStates, "reordered"),
 		recoded(base.BlockItemVoteproofs, "signed-again"),
+		// items BlockMap.IsValid tolerates to be missing: the lists always, a tree when the manifest has no root for it
+		{name: "operations-item-absent", excl: "served-operations", apply: func(_ *c16env, _ string, b *c16block) { b.absent[base.BlockItemOperations] = true }},
+		{name: "states-item-absent", excl: "served-states", apply: func(_ *c16env, _ string, b *c16block) { b.absent[base.BlockItemStates] = true }},
+		{name: "operations-count-0", excl: "served-operations", apply: func(_ *c16env, _ string, b *c16block) { b.count0[base.BlockItemOperations] = true }},
+		{name: "states-count-0", excl: "served-states", apply: func(_ *c16env, _ string, b *c16block) { b.count0[base.BlockItemStates] = true }},
+		{name: "manifest-ops-root-nil", excl: "mopsroot", apply: func(_ *c16env, _ string, b *c16block) { b.mOpsRoot = nil }},
+		{name: "manifest-states-root-nil", excl: "mstsroot", apply: func(_ *c16env, _ string, b *c16block) { b.mStsRoot = nil }},
+		{name: "ops-tree-item-absent", excl: "opstree,served-operations_tree", apply: func(_ *c16env, _ string, b *c16block) { b.absent[base.BlockItemOperationsTree] = true }},
+		{name: "states-tree-item-absent", excl: "ststree,served-states_tree", apply: func(_ *c16env, _ string, b *c16block) { b.absent[base.BlockItemStatesTree] = true }},
 	}
 }
 
@@ -266,7 +277,7 @@ func c16newenv(t *testing.T) *c16env {
 	// donor: a fully valid other block of the same height
 	d := &c16block{
 		ops: e.opF, opstree: e.opsTree(e.opF), sts: e.stF, ststree: e.statesTree(e.stF), pr: e.prOther,
-		vpHeight: c16H, avpBlock: "manifest", served: map[base.BlockItemType]bool{}, recoded: map[base.BlockItemType]bool{},
+		vpHeight: c16H, avpBlock: "manifest", served: map[base.BlockItemType]bool{}, recoded: map[base.BlockItemType]bool{}, absent: map[base.BlockItemType]bool{}, count0: map[base.BlockItemType]bool{},
 	}
 	d.mOpsRoot, d.mStsRoot, d.mPr = d.opstree.Root(), d.ststree.Root(), d.pr.Fact().Hash()
 	e.donor = filepath.Join(e.work, "donor")
@@ -358,15 +369,51 @@ func (e *c16env) write(root string, b *c16block, id string) base.BlockMap {
 		pr = e.signedAgain(b.pr)
 	}
 
-	for i := range ops {
-		e.must(fs.SetOperation(ctx, uint64(len(ops)), uint64(i), ops[i]))
+	opsT, stsT, opsTreeT, stsTreeT := base.BlockItemOperations, base.BlockItemStates, base.BlockItemOperationsTree, base.BlockItemStatesTree
+
+	switch {
+	case b.count0[opsT]:
+		fs.opsHeaderOnce.Do(func() {
+			e.must(writeCountHeader(fs.opsf, LocalFSWriterHint, fs.enc.Hint(), 0))
+		})
+	default:
+		for i := range ops {
+			e.must(fs.SetOperation(ctx, uint64(len(ops)), uint64(i), ops[i]))
+		}
 	}
-	e.must(fs.SetOperationsTree(ctx, b.opstree))
+	if !b.absent[opsTreeT] {
+		e.must(fs.SetOperationsTree(ctx, b.opstree)) // also closes the operations file and lists it when it has operations
+	}
+	_ = fs.opsf.Close()
+	switch {
+	case b.absent[opsT]:
+		_ = fs.m.items.SetValue(opsT, nil) // LocalFSWriter.save drops the file of an item that is not listed
+	case b.count0[opsT], b.absent[opsTreeT] && len(ops) > 0:
+		e.must(fs.m.SetItem(NewBlockMapItem(opsT, fs.opsf.Checksum())))
+	}
+
 	e.must(fs.SetProposal(ctx, pr))
-	for i := range sts {
-		e.must(fs.SetState(ctx, uint64(len(sts)), uint64(i), sts[i]))
+
+	switch {
+	case b.count0[stsT]:
+		fs.statesHeaderOnce.Do(func() {
+			e.must(writeCountHeader(fs.stsf, LocalFSWriterHint, fs.enc.Hint(), 0))
+		})
+	default:
+		for i := range sts {
+			e.must(fs.SetState(ctx, uint64(len(sts)), uint64(i), sts[i]))
+		}
 	}
-	e.must(fs.SetStatesTree(ctx, b.ststree))
+	if !b.absent[stsTreeT] {
+		e.must(fs.SetStatesTree(ctx, b.ststree)) // also closes the states file and lists it
+	}
+	_ = fs.stsf.Close()
+	switch {
+	case b.absent[stsT]:
+		_ = fs.m.items.SetValue(stsT, nil)
+	case b.absent[stsTreeT]:
+		e.must(fs.m.SetItem(NewBlockMapItem(stsT, fs.stsf.Checksum())))
+	}
 
 	if b.initOnly {
 		// a voteproofs file holding the INIT voteproof only (same file layout as LocalFSWriter.saveVoteproofs)
@@ -430,40 +477,61 @@ func c16Broken(e *c16env, src string, m base.BlockMap, b *c16block) []string {
 	var broken []string
 	man := m.Manifest()
 
+	// what is really served: a list that is absent or has "count":0 serves nothing, an absent tree has no nodes
+	ops, sts := b.ops, b.sts
+	if b.absent[base.BlockItemOperations] || b.count0[base.BlockItemOperations] {
+		ops = nil
+	}
+	if b.absent[base.BlockItemStates] || b.count0[base.BlockItemStates] {
+		sts = nil
+	}
+
 	// operations <-> operations tree <-> manifest root
 	var opkeys, opnodes []string
-	for i := range b.ops {
-		opkeys = append(opkeys, b.ops[i].Fact().Hash().String())
+	for i := range ops {
+		opkeys = append(opkeys, ops[i].Fact().Hash().String())
 	}
-	_ = b.opstree.Traverse(func(_ uint64, n fixedtree.Node) (bool, error) {
-		opnodes = append(opnodes, strings.TrimSuffix(n.Key(), "-"))
+	var opsroot util.Hash
+	if !b.absent[base.BlockItemOperationsTree] && b.opstree.Len() > 0 {
+		opsroot = b.opstree.Root()
+		_ = b.opstree.Traverse(func(_ uint64, n fixedtree.Node) (bool, error) {
+			opnodes = append(opnodes, strings.TrimSuffix(n.Key(), "-"))
 
-		return true, nil
-	})
+			return true, nil
+		})
+	}
 	if c16sorted(opkeys) != c16sorted(opnodes) {
 		broken = append(broken, "operations-vs-tree")
 	}
-	if man.OperationsTree() == nil || !b.opstree.Root().Equal(man.OperationsTree()) {
+	switch {
+	case man.OperationsTree() == nil && opsroot == nil: // a block without operations
+	case man.OperationsTree() == nil || opsroot == nil || !opsroot.Equal(man.OperationsTree()):
 		broken = append(broken, "operations-tree-root")
 	}
 
 	// states <-> states tree <-> manifest root
 	var stkeys, stnodes []string
-	for i := range b.sts {
-		stkeys = append(stkeys, b.sts[i].Hash().String())
-		if b.sts[i].Height() != man.Height() {
+	for i := range sts {
+		stkeys = append(stkeys, sts[i].Hash().String())
+		if sts[i].Height() != man.Height() {
 			broken = append(broken, "state-height")
 		}
 	}
-	_ = b.ststree.Traverse(func(_ uint64, n fixedtree.Node) (bool, error) {
-		stnodes = append(stnodes, n.Key())
+	var stsroot util.Hash
+	if !b.absent[base.BlockItemStatesTree] && b.ststree.Len() > 0 {
+		stsroot = b.ststree.Root()
+		_ = b.ststree.Traverse(func(_ uint64, n fixedtree.Node) (bool, error) {
+			stnodes = append(stnodes, n.Key())
 
-		return true, nil
-	})
+			return true, nil
+		})
+	}
 	if c16sorted(stkeys) != c16sorted(stnodes) {
 		broken = append(broken, "states-vs-tree")
 	}
-	if man.StatesTree() == nil || !b.ststree.Root().Equal(man.StatesTree()) {
+	switch {
+	case man.StatesTree() == nil && stsroot == nil: // a block without states
+	case man.StatesTree() == nil || stsroot == nil || !stsroot.Equal(man.StatesTree()):
 		broken = append(broken, "states-tree-root")
 	}
 
@@ -537,6 +605,7 @@ func c16class(err error) string {
 }
 
 type c16result struct {
+	badmap  bool // the block map is not well formed: outside the quantifier
 	stored  bool
 	imperr  error
 	valerr  error
@@ -560,7 +629,7 @@ func (e *c16env) run(basename, order string, tampers []c16tamper) c16result {
 
 	b := &c16block{
 		ops: append([]base.Operation{}, e.ops...), sts: append([]base.State{}, e.sts[basename]...), pr: e.prReal,
-		vpHeight: c16H, avpBlock: "manifest", served: map[base.BlockItemType]bool{}, recoded: map[base.BlockItemType]bool{},
+		vpHeight: c16H, avpBlock: "manifest", served: map[base.BlockItemType]bool{}, recoded: map[base.BlockItemType]bool{}, absent: map[base.BlockItemType]bool{}, count0: map[base.BlockItemType]bool{},
 	}
 	b.opstree = e.opsTree(b.ops)
 	b.ststree = e.statesTree(b.sts)
@@ -627,7 +696,13 @@ func (e *c16env) run(basename, order string, tampers []c16tamper) c16result {
 		e.t.Fatalf("c16 fixture %s: map not found", id)
 	}
 	if err := m.IsValid(e.LocalParams.NetworkID()); err != nil {
-		e.t.Fatalf("c16 fixture %s: the re-signed block map is not valid: %+v", id, err)
+		// only by construction: a tree item left out although the manifest has its root; the syncer refuses such a map
+		if !strings.Contains(err.Error(), "empty operations tree") && !strings.Contains(err.Error(), "empty states tree") {
+			e.t.Fatalf("c16 fixture %s: the re-signed block map is not valid: %+v", id, err)
+		}
+		res.badmap = true
+
+		return res
 	}
 
 	res.broken = c16Broken(e, src, m, b)
@@ -748,7 +823,10 @@ func TestVerifC16(t *testing.T) {
 		return c16subsets(len(alphabet), depth, func(cur []int) bool {
 			seen := map[string]bool{}
 			for _, i := range cur {
-				if g := alphabet[i].excl; g != "" {
+				for _, g := range strings.Split(alphabet[i].excl, ",") {
+					if g == "" {
+						continue
+					}
 					if seen[g] {
 						return false
 					}
@@ -795,6 +873,12 @@ func TestVerifC16(t *testing.T) {
 				}
 
 				res := e.run(bn, order, tampers)
+				if res.badmap {
+					r.Add("skipped_block_map_not_wellformed", 1)
+					r.Outcome("precondition:block-map-not-wellformed")
+
+					continue
+				}
 				r.Eval()
 				r.Trace()
 				r.State(id)
